@@ -9,6 +9,7 @@ import (
 	"reflect"
 	"sort"
 	"sync"
+	"sync/atomic"
 	"time"
 )
 
@@ -345,6 +346,12 @@ func cmdReplay(args []string) {
 		go func() {
 			defer wg.Done()
 			for bi := range jobs {
+				if atomic.LoadInt32(&abortAll) != 0 {
+					mu.Lock()
+					status["skipped"]++
+					mu.Unlock()
+					continue
+				}
 				var r behResult
 				for try := 0; try < 4; try++ {
 					r = replayOne(cfg, bi, behs[bi])
